@@ -530,10 +530,14 @@ def delete_preconditions(prog, an, rep):
     qd = [x for x in prog.calls_in(f) if an.call_matches(f, x, dd) and
           kw(x, 'force') is None]
     for x in qd:
-        vs = [v for _, v in stores_to(f, src(x.args[0])) if v is not None]
-        ok = len(vs) == 1 and \
-            canon(f, vs[0]) == "QueueBranch(%s, 'q/%%s' %% %s.version)" % (
-                REPO, B)
+        vs = [v for _, v in stores_to(f, src(x.args[0])) if v is not None] \
+            if isinstance(x.args[0], ast.Name) else [x.args[0]]
+        v0 = substitute_locals(f, vs[0]) if len(vs) == 1 else None
+        t = string_template(v0.args[1]) if isinstance(v0, ast.Call) and \
+            len(v0.args) == 2 and not v0.keywords else None
+        ok = t is not None and src(v0.func) == 'QueueBranch' and \
+            canon(f, v0.args[0]) == REPO and t[0] == 'q/{}' and \
+            canon(f, t[1][0]) == B + '.version'
         rep.check(ok, R, f.qname + ': unforced deletion only of the q/ '
                   'branch of that version', f.where(x), 'do_delete(%s) '
                   'bound to %s' % (src(x.args[0]), [src(v) for v in vs]))
